@@ -146,6 +146,9 @@ def main(tier):
     sd = seed()
     res = tlc.must_ok(tlc.run("CmdGen", "CmdGen_MC.cfg", workers=8, coverage=True), "CmdGen MC")
     run.add_mc("CmdGen", res)
+    # deeper bound: 4 + 2 registers, 4 values, 8 operations (918 k transitions)
+    deep = tlc.must_ok(tlc.run("CmdGen", "CmdGen_Deep.cfg", workers=16, timeout=900), "CmdGen deep MC")
+    run.add_mc("CmdGen(Deep: 6 registers, 4 values, 8 operations)", deep)
     bad = tlc.run("CmdGen", "CmdGen_Broken.cfg", workers=8)
     if bad["status"] != "invariant":
         raise MachineryError("CmdGen negative control (NBanks = 2) did not violate the invariant")
